@@ -1,4 +1,5 @@
 #![allow(dead_code)]
+mod auth;
 mod hub;
 mod seq;
 mod fsops;
@@ -44,6 +45,7 @@ fn main() {
         "pathguard" => fsops::engine_pathguard(&rt, cases, &mut out),
         "ckpt" => fsops::engine_ckpt(&rt, cases, &mut out),
         "surface" => surface::engine_surface(cases, &mut out),
+        "auth" => auth::engine_auth(cases, &mut out),
         "wslock" => wslock::engine_wslock(&rt, cases, &mut out),
         "runs" => {
             for case in cases {
